@@ -1552,6 +1552,7 @@ func TestVerifReplay(t *testing.T) {
 
 @family(r'/calculator/parsers\.')
 class ParserFamily(Family):
+    thorough = {'l1': 4, 'l2': 6, 'l3': 7}
     @classmethod
     def source(cls, l1=3, l2=5, l3=6, extra=''):
         return PARSER_TEST % {'l1': l1, 'l2': l2, 'l3': l3, 'extra': extra}
@@ -1738,6 +1739,7 @@ func TestVerifReplay(t *testing.T) {
 
 @family(r'expressions-gox/calculator\.')
 class EvaluatorFamily(Family):
+    thorough = {'l1': 3, 'l2': 6}
     @classmethod
     def source(cls, l1=3, l2=5, extra=''):
         return EVAL_TEST.replace('@L1@', str(l1)).replace('@L2@', str(l2)).replace('@EXTRA@', extra)
@@ -2010,6 +2012,7 @@ func TestVerifReplay(t *testing.T) {
 
 @family(r'calculator/functions\.(\w+FunctionCalculator|NewDefaultFunctionCollection|\(\*DelegatedFunction\)|checkParamCount|getParameter)')
 class FunctionFamily(Family):
+    thorough = {'depth': 4}
     @classmethod
     def source(cls, depth=3):
         return FUNCS_TEST.replace('@DEPTH@', str(depth))
@@ -2286,6 +2289,7 @@ func TestVerifReplay(t *testing.T) {
 
 @family(r'/mustache[./]')
 class MustacheFamily(Family):
+    thorough = {'l': 5}
     @classmethod
     def source(cls, l=4):
         return MUSTACHE_TEST.replace('@L@', str(l))
@@ -2773,6 +2777,7 @@ func TestVerifReplay(t *testing.T) {
 
 
 class TreeFamily(Family):
+    thorough = {'n': 4000}
     @classmethod
     def source(cls, n=300):
         return TREE_TEST.replace('@N@', str(n))
